@@ -39,6 +39,15 @@ SCALAR_K = [
     ("float 2.5", lambda: 2.5, 2.5, None),
     ("float -0.5", lambda: -0.5, -0.5, None),
     ("bool True", lambda: True, 1, None),
+    ("int 0", lambda: 0, 0, None),
+    ("float 0.0", lambda: 0.0, 0.0, None),
+    ("float -0.0", lambda: -0.0, -0.0, None),
+    ("bool False", lambda: False, 0, None),
+    ("np.float64 0.0", lambda: np.float64(0.0), 0.0, None),
+    ("np.int32 0", lambda: np.int32(0), 0, None),
+    ("int 1", lambda: 1, 1, None),
+    ("float 1.0", lambda: 1.0, 1.0, None),
+    ("int -1", lambda: -1, -1, None),
     ("np.float64 2.5", lambda: np.float64(2.5), 2.5, None),
     ("np.float32 2.5", lambda: np.float32(2.5), 2.5, 1e-6),
     ("np.float16 2.5", lambda: np.float16(2.5), 2.5, 2e-3),
@@ -224,6 +233,8 @@ def _task(task):
                         for vi, vals in enumerate(VALUES):
                             for kname, kf, kpy, ktol in ks:
                                 for expr in EXPRS:
+                                    if expr in ("x/k", "x//k") and not isinstance(kpy, list) and kpy == 0:
+                                        continue  # division by zero is not in the property
                                     x = build(cls, ckind, q, vals, n)
                                     xvals = [vals[0]] if cls == "Scalar" else list(vals[:n])
                                     sig = "C09:%s[%s,len %d]:%s:%s:k=%s:values %d" % (cls, ckind, n, qname, expr, kname, vi)
@@ -310,7 +321,7 @@ def run(ctx):
     ctx.level = "exploration"
     ctx.rule = (
         "complete product: quantity pool (simple, second category, affine, empty, unknown + every ordered composing map of the depth-%d derived-quantity graph) x 7 value-object shapes "
-        "(Scalar, Array/FixedArray over list/tuple/ndarray, lengths 0,1,3 / 2,3) x 13 scalar number types (+4 ndarray kinds for containers) x 10 expressions x 2 value assignments%s; "
+        "(Scalar, Array/FixedArray over list/tuple/ndarray, lengths 0,1,3 / 2,3) x 22 scalar numbers (13 python/numpy types; values incl. 0, -0.0, +-1) (+4 ndarray kinds for containers) x 10 expressions x 2 value assignments%s; "
         "non-trivial/distinct = distinct quantities in the pool; outcomes = distinct verdict keys" % (depth, "; plus every unit of the table x 4 shapes x 4 k x 6 expressions" if ctx.thorough else "")
     )
     ctx.coverage_extra = {"k_type_shape_combinations": len(ctx.part.sets.get("ktypes", ())), "table_units": c.get("table_units", 0), "zero_division_skipped": c.get("zero_division", 0)}
